@@ -152,6 +152,9 @@ def r20_2(ctx):
             continue
         for n in walk(hb["body"]):
             if n.get("k") == "Assign" and field_path(strip_transparent(n["l"])) == "self.define_component":
+                rhs = strip_transparent(n["r"])
+                if rhs.get("k") == "Field" and rhs["name"] == "define_component" and local_of(rhs["e"]) is not None:
+                    continue    # hand-over of the pre-pass's record to the visitor (R16.4 checks where it happens); not a new fact
                 writers.append((hb, n))
     if len(writers) != 1:
         r.ob("define_component has exactly one writer", False, "-", "%d writer(s)" % len(writers))
